@@ -420,7 +420,14 @@ def run_check(prop, cfg, tier, seed, workdir):
             except Exception:
                 return False
         iso = []
-        for v_ in violations[:12]:
+        cand = list(violations[:12])
+        per_op = {}
+        for v_ in violations[12:]:          # and a few of every other kind of case (a history-dependent failure
+            op = v_[1].split(" ", 1)[0]     # replays only from a case that carries its history, e.g. buildafter / termx)
+            if per_op.get(op, 0) < 3 and all(op != c[1].split(" ", 1)[0] for c in violations[:12]):
+                per_op[op] = per_op.get(op, 0) + 1
+                cand.append(v_)
+        for v_ in cand:
             if alone(v_[1]):
                 iso.append(v_)
                 if len(iso) == 3:
